@@ -1,11 +1,21 @@
 import PercevalModel.Proto
 import PercevalModel.Model.C18
+import PercevalModel.Model.C18Ext
 
 /-!
   Line-protocol driver of the C18 model.
 
   {"op":"trace","fixed":b,"cfg":CFG,"word":[EV…]}                 → {"outs":[OUT…],"final":STATE}
   {"op":"ext","fixed":b,"cfg":CFG,"word":[EV…],"letters":[EV…]}    → {"en":[bool…],"phase":…}   (enabled after the word)
+  {"op":"preset","preset":PRESET,"cb":b}                            → {"cfg":CFG}   (`Preset.cfg`, Model/C18Ext)
+  {"op":"coop","fixed":b,"cfg":CFG,"prog":PROG,"word":[CEV…]}      → {"outs":[OUT…],"final":STATE + todo/seen}
+
+  EV is an event of the EXTENDED machine (`xstep`): the events of the job machine, {"e":"sync",…,"via":"call"}
+  (`Job.__call__`), {"e":"prog","p":n,"u":REPLY} (progress report whose user callback returns REPLY; the answer
+  carries "reply" and "verdict"), {"e":"setname","v":string|null}, {"e":"getname"}.
+  REPLY = "none" | "other" | {"dict": null|true|false};   PRESET = {"k":"probsNative"} | {"k":"sampleViaProbs","shots":nat|null}
+  | {"k":"probsViaSamples","count":n} | {"k":"samplesNative","conv":b};   PROG = {"reports":[n…],"result":RET,"partial":RET,
+  "policy":"ignore"|"raise"|"stop"};   CEV = {"e":"tick","u":REPLY} | a caller event
 
   DICT = [[key, nat|null], …] with distinct keys;  VAL = nat | {"m":VAL,"kw":DICT}
   RET  = {"t":"none"} | {"t":"plain","n":n} | {"t":"dict","v":VAL} | {"t":"dlist","l":[[DICT,VAL],…]}
@@ -59,6 +69,53 @@ def evOf (j : Json) : Except String Ev := do
   | "propagate" => return .tPropagate
   | e => throw s!"bad event {e}"
 
+def replyOf (j : Json) : Except String Reply := do
+  match j with
+  | .str "none" => return .none
+  | .str "other" => return .other
+  | _ =>
+    let d ← j.getObjVal? "dict"
+    if d.isNull then return .dict none else return .dict (some (← d.getBool?))
+
+def xevOf (j : Json) : Except String XEv := do
+  match (← strOf j "e") with
+  | "setname" =>
+    let v ← j.getObjVal? "v"
+    if v.isNull then return .setName none else return .setName (some (← v.getStr?))
+  | "getname" => return .getName
+  | "sync" =>
+    match j.getObjVal? "via" with
+    | .ok (.str "call") => return .call (← callOf j)
+    | .ok (.str "execute_sync") => return .job (← evOf j)
+    | .ok _ => throw "bad via"
+    | .error _ => return .job (← evOf j)
+  | "prog" =>
+    match j.getObjVal? "u" with
+    | .ok u => return .prog (← natOf j "p") (← replyOf u)
+    | .error _ => return .job (← evOf j)
+  | _ => return .job (← evOf j)
+
+def cevOf (j : Json) : Except String CEv := do
+  match (← strOf j "e") with
+  | "tick" => return .tick (← replyOf (← j.getObjVal? "u"))
+  | _ => return .caller (← evOf j)
+
+def policyOf : String → Except String Policy
+  | "ignore" => .ok .ignore | "raise" => .ok .raise | "stop" => .ok .stop
+  | p => .error s!"bad policy {p}"
+
+def progOf (j : Json) : Except String Prog := do
+  return { reports := (← natList (← j.getObjVal? "reports")), result := (← retOf (← j.getObjVal? "result")),
+           partialResult := (← retOf (← j.getObjVal? "partial")), policy := (← policyOf (← strOf j "policy")) }
+
+def presetOf (j : Json) : Except String Preset := do
+  match (← strOf j "k") with
+  | "probsNative" => return .probsNative
+  | "sampleViaProbs" => return .sampleViaProbs (← pyValOf (← j.getObjVal? "shots"))
+  | "probsViaSamples" => return .probsViaSamples (← natOf j "count")
+  | "samplesNative" => return .samplesNative (← boolOf j "conv")
+  | k => throw s!"bad preset {k}"
+
 def cfgOf (j : Json) : Except String Cfg := do
   let names ← natList (← j.getObjVal? "names")
   return { paramNames := names, command0 := (← dictOf (← j.getObjVal? "cmd")),
@@ -82,9 +139,8 @@ def retJ : Ret → Json
   | .dlist l => Json.mkObj [("t", "dlist"),
       ("l", .arr (l.map fun e => Json.arr #[dictJ e.1, valJ e.2]).toArray)]
 
-def stJ : St → Json
-  | .waiting => "WAITING" | .running => "RUNNING" | .success => "SUCCESS"
-  | .error => "ERROR" | .canceled => "CANCELED"
+/-- the status as the string the model says a caller reads (`St.name`, Model/C18Ext) -/
+def stJ (s : St) : Json := s.name
 
 def excJ : Exc → Json
   | .assertion => "assertion" | .twice => "twice" | .unused => "unused" | .index => "index"
@@ -113,6 +169,34 @@ def outJ : Out → Json
       ("p", toJson p), ("relay", toJson r)]
   | .finished s => Json.mkObj [("o", "finished"), ("sync", match s with | some r => resJ r | none => .null)]
 
+def replyJ : Reply → Json
+  | .none => "none"
+  | .other => "other"
+  | .dict f => Json.mkObj [("dict", match f with | none => .null | some b => toJson b)]
+
+def xoutJ : XOut → Json
+  | .job o => outJ o
+  | .reply o r v => (outJ o).mergeObj (Json.mkObj [("reply", replyJ r),
+      ("verdict", match v with | none => "crash" | some b => toJson b)])
+  | .nameSet => Json.mkObj [("o", "nameset")]
+  | .typeError => Json.mkObj [("o", "exc"), ("e", "type")]
+  | .name n => Json.mkObj [("o", "name"), ("s", n)]
+  | .disabled => Json.mkObj [("o", "disabled")]
+
+def taskEvJ : Ev → Json
+  | .tStart => Json.mkObj [("e", "start")]
+  | .tProgress p => Json.mkObj [("e", "prog"), ("p", toJson p)]
+  | .tReturn r => Json.mkObj [("e", "ret"), ("r", retJ r)]
+  | .tRaise c m => Json.mkObj [("e", "raise"), ("cls", toJson c), ("msg", toJson m)]
+  | _ => Json.null
+
+def cfgJ (c : Cfg) : Json :=
+  Json.mkObj [("names", toJson c.paramNames), ("cmd", dictJ c.command0), ("mapping", dictJ c.mapping0),
+    ("map", toJson c.hasMap), ("cb", toJson c.cb0)]
+
+def verdictJ : Verdict → Json
+  | .go => "go" | .stop => "stop" | .crash => "crash"
+
 def phaseJ : Phase → Json
   | .idle => "idle" | .ready => "ready" | .active => "active" | .done => "done"
 
@@ -124,18 +208,36 @@ def stateJ (s : State) : Json :=
 
 def handleE (j : Json) : Except String Json := do
   let op ← strOf j "op"
+  if op == "preset" then
+    let p ← presetOf (← j.getObjVal? "preset")
+    return Json.mkObj [("cfg", cfgJ (p.cfg (← boolOf j "cb")))]
   let fixed ← boolOf j "fixed"
   let cfg ← cfgOf (← j.getObjVal? "cfg")
-  let word ← (← arrOf j "word").toList.mapM evOf
+  if op == "coop" then
+    let pr ← progOf (← j.getObjVal? "prog")
+    let word ← (← arrOf j "word").toList.mapM cevOf
+    let r := SM.run (cstep fixed cfg pr) (cinit cfg pr) word
+    -- which step the cooperative task takes at each tick (null: a caller event / nothing to do)
+    let rec evs (c : CState) : List CEv → List Json
+      | [] => []
+      | e :: w =>
+        (match e with
+         | .tick _ => (match nextTaskEv pr c with | some t => taskEvJ t | none => Json.null)
+         | .caller _ => Json.null) :: evs (cstep fixed cfg pr c e).1 w
+    return Json.mkObj [("outs", .arr (r.2.map outJ).toArray), ("evs", .arr (evs (cinit cfg pr) word).toArray),
+      ("final", (stateJ r.1.job).mergeObj (Json.mkObj [("todo", toJson r.1.todo), ("seen", verdictJ r.1.seen)]))]
+  let word ← (← arrOf j "word").toList.mapM xevOf
   match op with
   | "trace" =>
-    let r := SM.run (step fixed cfg) (init cfg) word
-    return Json.mkObj [("outs", .arr (r.2.map outJ).toArray), ("final", stateJ r.1)]
+    let r := SM.run (xstep fixed cfg) (xinit cfg) word
+    return Json.mkObj [("outs", .arr (r.2.map xoutJ).toArray),
+      ("final", (stateJ r.1.job).mergeObj (Json.mkObj [("name", r.1.name)]))]
   | "ext" =>
-    let letters ← (← arrOf j "letters").toList.mapM evOf
-    let s := SM.exec (step fixed cfg) (init cfg) word
-    let en := letters.map fun l => decide ((step fixed cfg s l).2 ≠ Out.disabled)
-    return Json.mkObj [("en", toJson en), ("phase", phaseJ s.phase)]
+    let letters ← (← arrOf j "letters").toList.mapM xevOf
+    let s := SM.exec (xstep fixed cfg) (xinit cfg) word
+    let en := letters.map fun l =>
+      decide ((xstep fixed cfg s l).2 ≠ XOut.disabled ∧ (xstep fixed cfg s l).2 ≠ XOut.job Out.disabled)
+    return Json.mkObj [("en", toJson en), ("phase", phaseJ s.job.phase)]
   | _ => throw s!"bad op {op}"
 
 def handle (j : Json) : Json :=
